@@ -195,3 +195,14 @@ def extract_printed(out: str, tag: str):
         vals.append(parse_value(out[j:k])[1])
         pos = k
     return vals
+
+
+def cleanup_mine():
+    """Remove the scratch directories of this process only (checks may run concurrently)."""
+    me = f".{os.getpid()}"
+    if not os.path.isdir(SCRATCH):
+        return
+    for n in os.listdir(SCRATCH):
+        parts = n.split(".")
+        if str(os.getpid()) in parts[1:]:
+            shutil.rmtree(os.path.join(SCRATCH, n), ignore_errors=True)
